@@ -177,6 +177,16 @@ def _run2(ctx, name, case, fpy, fcy, args, desc, post=None):
                          "%s: the %s routine changed its argument %d from %r to %r; %s"
                          % (name, which, k, o.tolist(), u.tolist(), desc))
     if post is not None:
+        # `post` drops the two framing entries of a discrete profile before the semantic
+        # comparison; but "the same results" includes them: whatever convention the
+        # library has for these entries, both copies must follow it
+        if py[0] == "ok" and cy[0] == "ok":
+            msg = _same(py[1], cy[1])
+            if msg and not _same(post(py)[1], post(cy)[1]):
+                ctx.fail("differs_in_framing_entries:" + name,
+                         "%s: %s (python %r, pyx %r); %s"
+                         % (name, msg, [np.asarray(v).tolist() for v in py[1]],
+                            [np.asarray(v).tolist() for v in cy[1]], desc))
         py, cy = post(py), post(cy)
     _compare(ctx, name, case, py, cy, desc)
     return py, cy
